@@ -121,3 +121,10 @@ META['C15'] = dict(
     note='Trusted: interposition sees posix_memalign, operator new and mmap/munmap of the statically linked library; libstdc++\'s exception-object malloc is out of reach; huge pages are simulated with the munmap rule measured on this kernel.',
     technique='exhaustive fault-injection enumeration + property-based testing (rapidcheck) of fault/cycle sequences with leak-accounting invariant',
 )
+
+META['C14'] = dict(
+    text='Generated multi-thread workloads (threads x operation lists x yields) over one shared cache and one shared sparse dataset, executed in a ThreadSanitizer build: results must equal the sequential results and '
+         'TSan\'s happens-before analysis must stay silent, which flags conflicting unsynchronised accesses of sibling threads independently of the timing that happened to occur. 40 workloads quick / 1000 thorough.',
+    note='Trusted: TSan (clang 14) instrumentation of the C/C++ sources; JIT-emitted stores are invisible to it; schedules are sampled, not enumerated - a race needing a narrow timing window *and* falling outside TSan\'s history can be missed.',
+    technique='property-based testing (rapidcheck) of generated thread workloads under a happens-before race detector + sequential-equivalence oracle',
+)
